@@ -7,7 +7,7 @@ from fractions import Fraction
 import numpy as np
 import z3
 
-from symex import arrays, core, larr, stubs
+from symex import arrays, core, larr, purity, stubs
 from symex.core import SInt, SReal, UVal, all_, and_, implies, ite, mkbool, not_, or_
 from symex.harness import Case, Twin
 from symex.larr import LArr
@@ -322,7 +322,9 @@ def case_convolve_values(ctx, nsx, nsw, mode, two_d, int_signal=False):
         x = arrays.mk(xs, tag=np.dtype(float))
     w = arrays.mk(ws, tag=np.dtype(float))
     del _conv_trace[:]
+    b_x, b_w = purity.snap(x.view(arrays.SymArray)), purity.snap(w)
     out = ctx.call("convolve", f.convolve, x, w, mode=mode)
+    purity.oblige_untouched(ctx, "convolve_leaves_signal_and_kernel_untouched", [x.view(arrays.SymArray), w], [b_x, b_w])
     tr = _conv_trace[-1]
     ctx.oblige("irfft_length_equals_padded_size", int(tr["P"]) == int(tr["n_in"]), detail={"padded": int(tr["n_in"]), "irfft_len": int(tr["P"])})
     rows = [xs, xs2] if two_d else [xs]
